@@ -466,6 +466,157 @@ pub fn make_client_race(n: usize, scheme: &'static str, pre_request: bool) -> cr
     })
 }
 
+/// Server role: a real server session whose receive loop answers (SERVER_SETTINGS, UPDATE_PADDING_SCHEME, HEART_RESP)
+/// while two handler tasks write their SYNACK (write_control_frame, as handler.rs does) and response data (through the
+/// forwarding task or directly). Oracle on the decoded wire: whole frames only, every task's frames in its order
+/// (SYNACK s before the first data of s), keep-alive answers in request order.
+pub fn make_server_race(scheme: &'static str, via_forwarder: bool, write_menu: bool, big: bool) -> crate::ctl::ScenarioFn {
+    scenario(move || async move {
+        let mut out = Outcome::default();
+        let link = peer_link(PipeCfg::new("c2s"), PipeCfg::new("s2c").menus(false, write_menu));
+        let wire = link.peer.out.clone();
+        let inj = link.peer.inj.clone();
+        let mut ss = start_server_session(link.sess_r, link.sess_w, padding(scheme), None);
+        tokio::spawn(link.peer.sink());
+        let logs: Arc<Mutex<Vec<Vec<(u8, u32, Vec<u8>)>>>> = Arc::new(Mutex::new(vec![vec![]; 2]));
+        let errs: Arc<Mutex<Vec<String>>> = Arc::new(Mutex::new(vec![]));
+        // the peer's whole conversation is available at once: the receive loop works through it while the handlers run
+        let mut conv = vec![];
+        conv.extend_from_slice(&enc(SETTINGS, 0, &client_settings("00000000000000000000000000000000")));
+        conv.extend_from_slice(&enc(SYN, 1, b""));
+        conv.extend_from_slice(&enc(PSH, 1, &[1, 127, 0, 0, 1, 0, 80]));
+        conv.extend_from_slice(&enc(HEART_REQ, 5, b""));
+        conv.extend_from_slice(&enc(SYN, 2, b""));
+        conv.extend_from_slice(&enc(PSH, 2, &[1, 127, 0, 0, 1, 0, 81]));
+        conv.extend_from_slice(&enc(HEART_REQ, 6, b""));
+        inj.push(&conv);
+        let mut hs = vec![];
+        for t in 0..2usize {
+            let st = match within(ss.streams.recv()).await {
+                Some(Some(st)) => st,
+                _ => {
+                    out.viol("C11:server:stream-not-accepted", format!("stream {} never reached the stream callback", t + 1));
+                    return out;
+                }
+            };
+            let sess = ss.sess.clone();
+            let logs = logs.clone();
+            let errs = errs.clone();
+            hs.push(tokio::spawn(async move {
+                let id = st.id();
+                let tag = id as u8;
+                hpoint("h.c11s.handler").await;
+                match within(sess.write_control_frame(Frame::control(Command::SynAck, id))).await {
+                    Some(Ok(())) => logs.lock().unwrap()[t].push((SYNACK, id, vec![])),
+                    other => {
+                        errs.lock().unwrap().push(format!("synack of stream {id}: {:?}", other.map(|r| r.map_err(|e| e.to_string()))));
+                        return;
+                    }
+                }
+                for c in 0..2usize {
+                    let d = pat_vec(tag, 1, 100 * c, if big && c == 0 { 70_000 } else { 6 + c });
+                    if via_forwarder {
+                        if st.send_data(Bytes::from(d.clone())).is_ok() {
+                            logs.lock().unwrap()[t].push((PSH, id, d));
+                        } else {
+                            errs.lock().unwrap().push(format!("send_data on stream {id} failed"));
+                        }
+                    } else {
+                        match within(sess.write_data_frame(id, Bytes::from(d.clone()))).await {
+                            Some(Ok(())) => logs.lock().unwrap()[t].push((PSH, id, d)),
+                            other => errs.lock().unwrap().push(format!("data of stream {id}: {:?}", other.map(|r| r.map_err(|e| e.to_string())))),
+                        }
+                    }
+                }
+                // keep the stream until the scenario ends
+                tokio::time::sleep(Duration::from_secs(30)).await;
+                drop(st);
+            }));
+        }
+        tokio::time::sleep(Duration::from_secs(5)).await;
+        let bytes = wire.written();
+        let (frames, leftover) = parse_all(&bytes);
+        let real: Vec<RFrame> = frames.iter().filter(|f| f.cmd != WASTE).cloned().collect();
+        out.obs = format!("wire=[{}] leftover={} errs={:?}", fmt_frames(&real), leftover, errs.lock().unwrap());
+        if !errs.lock().unwrap().is_empty() {
+            out.viol("C11:write-failed-on-healthy-transport", format!("server role: {:?}", errs.lock().unwrap()));
+        }
+        if leftover != 0 {
+            out.viol("C11:wire-not-whole-frames", format!("server role: {} trailing bytes do not form a frame; frames: {}", leftover, fmt_frames(&frames)));
+        }
+        if frames.iter().any(|f| f.cmd == WASTE && f.data.iter().any(|b| *b != 0)) {
+            out.viol("C11:frame-not-contiguous", "server role: padding frame carries non-zero bytes");
+        }
+        let mut accounted = 0usize;
+        for (t, log) in logs.lock().unwrap().iter().enumerate() {
+            let id = t as u32 + 1;
+            let merge = |v: Vec<(u8, u32, Vec<u8>)>| {
+                let mut o: Vec<(u8, u32, Vec<u8>)> = vec![];
+                for x in v {
+                    if let Some(l) = o.last_mut()
+                        && l.0 == PSH
+                        && x.0 == PSH
+                    {
+                        l.2.extend_from_slice(&x.2);
+                        continue;
+                    }
+                    o.push(x);
+                }
+                o
+            };
+            let on_wire: Vec<(u8, u32, Vec<u8>)> = real.iter().filter(|f| f.id == id && (f.cmd == SYNACK || f.cmd == PSH)).map(|f| (f.cmd, f.id, f.data.clone())).collect();
+            accounted += on_wire.len();
+            let (w, l) = (merge(on_wire), merge(log.clone()));
+            if w != l {
+                let sh = |v: &[(u8, u32, Vec<u8>)]| v.iter().map(|x| format!("{}{}[{}]", if x.0 == SYNACK { "SYNACK" } else { "PSH" }, x.1, x.2.len())).collect::<Vec<_>>();
+                let key = if w.first().map(|x| x.0) == Some(PSH) && l.first().map(|x| x.0) == Some(SYNACK) { "C11:server:data-before-synack" } else { "C11:server:task-frames-differ" };
+                out.viol(key, format!("handler of stream {id} submitted {:?}, wire has {:?}", sh(&l), sh(&w)));
+            }
+        }
+        let ctl: Vec<(u8, u32)> = real.iter().filter(|f| matches!(f.cmd, HEART_RESP | UPDATE_PADDING | SERVER_SETTINGS)).map(|f| (f.cmd, f.id)).collect();
+        accounted += ctl.len();
+        let hr: Vec<u32> = ctl.iter().filter(|c| c.0 == HEART_RESP).map(|c| c.1).collect();
+        if hr != vec![5, 6] {
+            out.viol("C11:server:keepalive-answers", format!("requests 5 and 6 were sent in that order, answers on the wire: {:?} ({})", hr, fmt_frames(&real)));
+        }
+        for c in [UPDATE_PADDING, SERVER_SETTINGS] {
+            let n = ctl.iter().filter(|x| x.0 == c).count();
+            let pos = ctl.iter().position(|x| x.0 == c);
+            let first_hr = ctl.iter().position(|x| x.0 == HEART_RESP);
+            if n != 1 || (pos.is_some() && first_hr.is_some() && pos > first_hr) {
+                out.viol("C11:server:settings-answer", format!("command {c}: {n} on the wire (1 expected, before the keep-alive answers the same task wrote later): {}", fmt_frames(&real)));
+            }
+        }
+        if accounted != real.len() {
+            out.viol("C11:unexpected-frames", format!("server role: {} frames on the wire, {} accounted for: {}", real.len(), accounted, fmt_frames(&real)));
+        }
+        for h in hs {
+            h.abort();
+        }
+        ss.recv_task.abort();
+        ss.fwd_task.abort();
+        out
+    })
+}
+
+pub fn server_items(tier: Tier) -> Vec<DxItem> {
+    let mut v = vec![];
+    for (scheme, name) in [(STOP0, "stop0"), (DEFAULT, "default")] {
+        for fw in [true, false] {
+            for (wm, big) in [(false, false), (true, false), (false, true)] {
+                if !tier.is_thorough() && name == "default" && (wm || big) {
+                    continue;
+                }
+                let b = if tier.is_thorough() { if wm || big { 2 } else { 3 } } else if wm || big || name == "default" { 1 } else { 2 };
+                let mut it = DxItem::new(json!({"part": "server-role", "scheme": name, "data_via_forwarder": fw, "write_menu": wm, "big_first_chunk": big}), make_server_race(scheme, fw, wm, big), b);
+                it.exec.quiesce = true;
+                v.push(it);
+            }
+        }
+    }
+    v
+}
+
 pub fn client_items(tier: Tier) -> Vec<DxItem> {
     let mut v = vec![];
     for (scheme, name) in [(STOP0, "stop0"), (DEFAULT, "default")] {
@@ -493,6 +644,7 @@ pub fn items(tier: Tier) -> Vec<DxItem> {
             it.exec.quiesce = true;
             it
         })
+        .chain(server_items(tier))
         .chain(client_items(tier))
         .collect()
 }
